@@ -22,7 +22,7 @@ def describe(tier):
         "pointer arguments: whole array, offset slice, strided slice, 2-D sub-block, reversed view (address of the first element and its value); xobject arrays "
         "as pointer arguments; refusals: positional call, missing / extra / misnamed argument, wrong element dtype (NumPy and xobject). "
         "(b) history system: buffer B (capacity 8, grows) x events {create struct / dynamic struct / array / union reference object aligned or packed, grow B, "
-        "free an object}; at EVERY state every live object is passed to address-reporting and content-reading kernels: pointer == current storage base + "
+        "free an object}; after EVERY event of every history (calls are part of the history, so call -> grow -> call sequences are covered) every live object is passed to address-reporting and content-reading kernels: pointer == current storage base + "
         "_offset, content read in C == Python, array pointer == address of the first element. Serial and OpenMP contexts.",
         bounds=dict(history_depth=4 if tier == "quick" else 5, contexts=["serial", "openmp:2"], scalar_kinds=SC),
         assumptions=["values not representable in the declared C type are outside the property", "empty arrays are not passed as pointer arguments"],
@@ -338,10 +338,26 @@ def check_world(w, v, res, hist):
             v.bad("C17.accepts", "legal-call-raises:" + type(e).__name__, "object %s: %r" % (k, e), kind=k, history=hist)
 
 
+def touch_world(w):
+    """kernel calls are part of every history: each live object is passed to its kernels after every event, so that
+    anything a kernel call remembers (a cached base address, a cached pointer) is exposed to later growth / frees"""
+    K = w.ctx.kernels
+    for k, h, m, live in w.objs:
+        if live:
+            try:
+                a = getattr(K, "addr_" + k)(obj=h)
+                if int(a) == base_of(w.buf) + int(h._offset):  # never dereference a pointer that is already known to be wrong
+                    getattr(K, "read_" + k)(obj=h)
+            except Exception:
+                pass  # judged (and reported) by check_world on the state where it happens
+
+
 def build_world(omp, hist):
     w = World(omp)
+    touch_world(w)
     for ev in hist:
         w.apply(ev)
+        touch_world(w)
     return w
 
 
@@ -365,6 +381,7 @@ def run_history(omp, first, depth, res, seed):
                 w = build_world(omp, hist)
                 try:
                     w.apply(ev)
+                    res.events["call-in-history"] += len(hist) + 1
                 except Exception as e:
                     v.bad("C17.accepts", "event-raises:" + ev[0] + ":" + common.exc_failure(e), repr(e), history=[list(map(str, x)) for x in hist + [ev]])
                     continue
